@@ -18,6 +18,7 @@ the HID device (EOF | read error | failing write), bring it back, call
 connect() again, cancel a caller.  The list of choices made is
 the *schedule*; replaying the same schedule reproduces the run exactly.
 """
+from common import exc_name  # noqa: E402
 import asyncio
 import logging
 import sys
@@ -161,7 +162,7 @@ def canonical_exc(e):
     for k in type(e).__mro__:
         if k.__name__ in KNOWN_EXC:
             return k.__name__
-    return type(e).__name__
+    return exc_name(e)
 
 
 class Caller:
@@ -410,7 +411,7 @@ class Sim:
         except asyncio.CancelledError:
             c.result = ("cancelled", None)
         except BaseException as e:  # noqa
-            if type(e).__name__ == "Spin":
+            if exc_name(e) == "Spin":
                 # the watchdog of Sim.run fired inside this caller: it was spinning and never completed
                 self.spin = True
                 self.rec(c.tid, "spin")
@@ -662,7 +663,7 @@ class Sim:
                 break
             e = t.exception()
             if e is not None:
-                self.follow_results.append(("err", i, type(e).__name__))
+                self.follow_results.append(("err", i, exc_name(e)))
                 break
             self.follow_results.append(("ok", self._summ(t.result())))
 
@@ -670,7 +671,7 @@ class Sim:
         try:
             r = await self.drv.send(self.follow_cmd)
         except BaseException as e:  # noqa
-            self.rec(100, "done", "err", type(e).__name__)
+            self.rec(100, "done", "err", exc_name(e))
             raise
         self.rec(100, "done", "ok", self._summ(r))
         return r
